@@ -689,7 +689,17 @@ def _is_square(d):
   return r * r == d
 
 
+FORCED_DISAGREEMENT = '(CD [], OD [0])'
+
+
 def encode(case, obs):
+  try:
+    return _encode(case, obs)
+  except (ValueError, OverflowError, TypeError):
+    return FORCED_DISAGREEMENT     # NaN / Inf / missing values in the observation: never what the model computes
+
+
+def _encode(case, obs):
   kind = case['kind']
   if kind == 'U':
     if not obs['finite'] or obs['n_out'] != len(obs['v']):
